@@ -531,7 +531,7 @@ def run_builder(ctx):
     # builders configured with a graph adapter: build() = adapter.restore(OptGraph(copies)); the same
     # model (canonical form of the node objects the result is made of), the same clauses
     for adapter in ADAPTERS[1:]:
-        items = [(2, list(seq) + EPILOGUE) for n in (1, 2) for seq in itertools.product(alpha[:ctx.pick(16, 30)], repeat=n)]
+        items = [(2, list(seq) + EPILOGUE) for n in (1, 2) for seq in itertools.product(alpha[:ctx.pick(12, 30)], repeat=n)]
         for _ in range(ctx.budget(60, 1000)):
             nb = r.choice([1, 2, 3])
             calls = [random_call(r, nb) for _ in range(r.randrange(4, 12))]
